@@ -1,5 +1,7 @@
 package main
 
+import "golang.org/x/tools/go/ssa"
+
 // C11 — files are flushed before they are published, and published before acknowledged.
 
 func init() {
@@ -17,4 +19,57 @@ func init() {
 
 func runC11(c *Ctx) {
 	fsPublicationRules(c, true, false)
+	c11UnlinkOnlyToSupersede(c)
+}
+
+// c11UnlinkOnlyToSupersede: the restore command unlinks an existing output database
+// (and its sidecars) only on the way to a restore that will supersede it: once
+// prepareOutputPath has succeeded, no return of its caller is reachable without
+// passing the Replica.Restore call (a dry run, a usage error or any other early exit
+// must come before the unlink).
+func c11UnlinkOnlyToSupersede(c *Ctx) {
+	const rule = "R5-unlink-only-to-supersede"
+	prep := c.fn(rule, "(*ls/cmd/litestream.RestoreCommand).prepareOutputPath")
+	if prep == nil {
+		return
+	}
+	// the callee really is the unlinking step (otherwise the rule has lost its subject)
+	c.floor(rule, len(callsToDeep(prep, nameIs("os.Remove", "os.RemoveAll"))), 1, "os.Remove in prepareOutputPath")
+	n := 0
+	for _, call := range callSitesOf(prep) {
+		fn := call.Parent()
+		for fn.Parent() != nil {
+			fn = fn.Parent()
+		}
+		if call.Parent() != fn {
+			continue
+		}
+		n++
+		avoid := map[*ssa.BasicBlock]bool{}
+		rs := callSitesV(fn, nameIs("(*ls.Replica).Restore"))
+		for _, r := range rs {
+			avoid[r.At().Block()] = true
+		}
+		name := fnName(fn) + ": after prepareOutputPath removed the existing output, every exit passes Replica.Restore"
+		if len(rs) == 0 {
+			c.fail(rule, name, c.pos(call), "no Replica.Restore call in the function that unlinks the output path")
+			continue
+		}
+		bad := ""
+		for _, e := range nilEdges(fn, call) {
+			start := e.From.Succs[e.Succ]
+			r := reachableAvoiding(fn, start, nil, avoid)
+			for _, ret := range returns(fn) {
+				if r[ret.Block()] && !avoid[ret.Block()] {
+					bad = c.pos(ret)
+				}
+			}
+		}
+		if len(nilEdges(fn, call)) == 0 {
+			bad = "no test of prepareOutputPath's error"
+		}
+		c.check(bad == "", rule, name, c.pos(call), "no return is reachable from the success edge of prepareOutputPath without passing the restore",
+			"the existing output database and its sidecars are unlinked on a path that returns without restoring (return at "+bad+"): a file is deleted although nothing supersedes it")
+	}
+	c.floor(rule, n, 1, "call sites of prepareOutputPath")
 }
